@@ -356,6 +356,8 @@ fn split_case(ctx: &Ctx, shard: usize, index: u64, rep: &mut Report) {
     let (w, h) = gen_size(&mut rng, smax);
     let (w, h) = if sorenson { (w, h) } else { (((w + 3) / 4 * 4).clamp(4, 2048), ((h + 3) / 4 * 4).clamp(4, 1152)) };
     let mut cfg = gen_cfg(&mut rng, flavour, w, h);
+    // extra-information bytes move the header's last flag bits across byte boundaries (every 8th flag starts a byte)
+    cfg.pei = *rng.pick(&[0usize, 0, 0, 1, 2, 6, 7, 8, 9, 15, 16]);
     let with_hist = rng.chance(1, 2);
     let hist = gen_reference(&mut rng, &cfg).encode();
     cfg.tr = cfg.tr.wrapping_add(1);
